@@ -232,3 +232,339 @@ Proof.
   assert (Z : forall n v, Rdot (repeat 0 n) v = 0) by (intros; apply Rdot_repeat0_l).
   rewrite Z in E. lra.
 Qed.
+
+(* ------------------------------------------------------------------------------------------- *)
+(** * group (l2,1) penalties: several tasks share the design, the rows of the coefficient matrix are penalised by their Euclidean norm *)
+Definition norm (v : list R) : R := sqrt (sq v).
+
+Lemma sq_vadd_scale t : forall a b, length a = length b ->
+  sq (vadd a (vscale t b)) = sq a + 2 * t * Rdot a b + t * t * sq b.
+Proof.
+  unfold sq, vadd, vscale. induction a as [|x a IH]; intros [|y b] L; simpl in *; try discriminate; try lra.
+  rewrite IH by lia. ring.
+Qed.
+
+Lemma sq_zero_dot : forall a b, length a = length b -> sq b = 0 -> Rdot a b = 0.
+Proof.
+  unfold sq. induction a as [|x a IH]; intros [|y b] L H; simpl in *; try discriminate; auto.
+  assert (0 <= Rdot b b) by (apply (sq_nonneg b)).
+  assert (0 <= y * y) by apply Rle_0_sqr.
+  assert (y * y = 0) by lra. assert (y = 0) by nra. subst y.
+  rewrite IH; try lia; try lra.
+Qed.
+
+Lemma cauchy_schwarz a b : length a = length b -> Rdot a b * Rdot a b <= sq a * sq b.
+Proof.
+  intros L. pose proof (sq_nonneg b) as Hb. destruct (Req_dec (sq b) 0) as [Z | NZ].
+  - rewrite (sq_zero_dot a b L Z), Z. lra.
+  - assert (P : 0 < sq b) by lra.
+    pose proof (sq_nonneg (vadd a (vscale (- Rdot a b / sq b) b))) as Q.
+    rewrite sq_vadd_scale in Q by auto.
+    assert (E : sq a + 2 * (- Rdot a b / sq b) * Rdot a b + - Rdot a b / sq b * (- Rdot a b / sq b) * sq b
+                = sq a - Rdot a b * Rdot a b / sq b) by (field; lra).
+    rewrite E in Q.
+    assert (Rdot a b * Rdot a b / sq b <= sq a) by lra.
+    apply Rmult_le_compat_r with (r := sq b) in H; [|lra].
+    replace (Rdot a b * Rdot a b / sq b * sq b) with (Rdot a b * Rdot a b) in H by (field; lra). lra.
+Qed.
+
+Lemma norm_nonneg v : 0 <= norm v.
+Proof. apply sqrt_pos. Qed.
+Lemma norm_sq v : norm v * norm v = sq v.
+Proof. unfold norm. apply sqrt_sqrt. apply sq_nonneg. Qed.
+
+Lemma dot_le_norms a b : length a = length b -> Rdot a b <= norm a * norm b.
+Proof.
+  intros L. pose proof (cauchy_schwarz a b L) as C.
+  pose proof (norm_nonneg a). pose proof (norm_nonneg b).
+  rewrite <- (norm_sq a), <- (norm_sq b) in C.
+  destruct (Rle_dec (Rdot a b) 0); [nra|].
+  assert (0 < Rdot a b) by lra.
+  assert (Hs : Rdot a b * Rdot a b <= (norm a * norm b) * (norm a * norm b)) by lra.
+  set (x := Rdot a b) in *. set (y := norm a * norm b) in *.
+  assert (0 <= y) by (unfold y; apply Rmult_le_pos; auto).
+  destruct (Rle_dec x y); auto. exfalso.
+  assert (0 < (x - y) * (x + y)) by (apply Rmult_lt_0_compat; lra). lra.
+Qed.
+
+(** first-order condition of one row (group) with correlation vector C = (<col, R_k>)_k *)
+Definition group_cond (C : list R) (l1 l2 : R) (row : list R) (eps : R) : Prop :=
+  let G := vsub C (vscale l2 row) in
+  (sq row = 0 -> norm G <= l1 + eps) /\
+  (sq row <> 0 -> norm (vsub G (vscale (l1 / norm row) row)) <= eps).
+
+Definition gpen1 (l1 l2 : R) (row : list R) : R := l1 * norm row + l2 / 2 * sq row.
+
+Lemma sq_zero_all : forall v, sq v = 0 -> forall u, length u = length v -> Rdot u v = 0.
+Proof. intros v H u L. apply sq_zero_dot; auto. Qed.
+
+Lemma vsub_self_dot a : forall b c, length a = length b -> length c = length a ->
+  Rdot (vsub a b) c = Rdot a c - Rdot b c.
+Proof.
+  intros b c L L2. unfold vsub. rewrite Rdot_vadd_l by (rewrite vscale_length; auto).
+  rewrite Rdot_vscale_l. lra.
+Qed.
+
+Lemma sq_vsub a b : length a = length b -> sq (vsub a b) = sq a - 2 * Rdot a b + sq b.
+Proof.
+  intros L. unfold vsub. rewrite sq_vadd_scale by auto. lra.
+Qed.
+
+Lemma group_ineq C l1 l2 row eps row' :
+  0 <= l1 -> 0 <= l2 -> length C = length row -> length row' = length row ->
+  group_cond C l1 l2 row eps ->
+  gpen1 l1 l2 row' - gpen1 l1 l2 row - Rdot (vsub row' row) C >= - (eps * norm (vsub row' row)).
+Proof.
+  intros H1 H2 LC L' [Hz Hnz]. unfold gpen1.
+  set (D := vsub row' row).
+  assert (LD : length D = length row) by (unfold D; rewrite vsub_length; lia).
+  (* ridge part *)
+  assert (Hq : l2 / 2 * sq row' - l2 / 2 * sq row >= l2 * Rdot D row).
+  { assert (E : sq row' = sq row + 2 * Rdot D row + sq D).
+    { unfold D. rewrite sq_vsub by auto. rewrite vsub_self_dot by auto.
+      rewrite (Rdot_comm row' row). unfold sq. lra. }
+    pose proof (sq_nonneg D). rewrite E. nra. }
+  set (G := vsub C (vscale l2 row)) in *.
+  assert (LG : length G = length row) by (unfold G; rewrite vsub_length; rewrite ?vscale_length; lia).
+  assert (EG : Rdot D C = Rdot D G + l2 * Rdot D row).
+  { unfold G. rewrite (Rdot_comm D (vsub _ _)), vsub_self_dot by (rewrite ?vscale_length; lia).
+    rewrite Rdot_vscale_l, (Rdot_comm C D), (Rdot_comm row D). lra. }
+  destruct (Req_dec (sq row) 0) as [Z | NZ].
+  - specialize (Hz Z).
+    assert (Nr : norm row = 0) by (unfold norm; rewrite Z; apply sqrt_0).
+    (* row = 0 as far as dot products are concerned: row' and D have the same norm *)
+    assert (Dr : Rdot D row = 0) by (apply sq_zero_dot; auto).
+    assert (ED : sq D = sq row').
+    { unfold D. rewrite sq_vsub by auto. rewrite (sq_zero_dot row' row) by auto. lra. }
+    assert (ND : norm D = norm row') by (unfold norm; now rewrite ED).
+    pose proof (dot_le_norms D G ltac:(lia)) as CS.
+    pose proof (norm_nonneg D). pose proof (norm_nonneg G). rewrite Nr, Z. rewrite <- ND. nra.
+  - specialize (Hnz NZ).
+    assert (Pn : 0 < norm row).
+    { pose proof (norm_nonneg row). pose proof (norm_sq row). pose proof (sq_nonneg row).
+      destruct (Req_dec (norm row) 0) as [E|E]; [rewrite E in *; lra | lra]. }
+    set (u := vscale (l1 / norm row) row) in *.
+    (* |row'| >= <row, row'> / |row| *)
+    pose proof (dot_le_norms row row' ltac:(lia)) as CS1.
+    assert (Hn : l1 * norm row' - l1 * norm row >= Rdot D u).
+    { unfold u. rewrite (Rdot_comm D (vscale _ _)), Rdot_vscale_l.
+      unfold D. rewrite (Rdot_comm row (vsub row' row)), vsub_self_dot by lia.
+      rewrite (Rdot_comm row' row). fold (sq row). rewrite <- (norm_sq row).
+      assert (Rdot row row' / norm row <= norm row').
+      { apply Rmult_le_reg_r with (norm row); auto. unfold Rdiv. rewrite Rmult_assoc, Rinv_l by lra. lra. }
+      unfold Rdiv in *.
+      replace (l1 * / norm row * (Rdot row row' - norm row * norm row))
+        with (l1 * (Rdot row row' * / norm row) - l1 * norm row) by (field; lra).
+      nra. }
+    pose proof (dot_le_norms D (vsub G u) ltac:(unfold u; rewrite vsub_length; rewrite ?vscale_length; lia)) as CS2.
+    rewrite (Rdot_comm D (vsub G u)), vsub_self_dot in CS2 by (unfold u; rewrite ?vscale_length; lia).
+    rewrite (Rdot_comm G D), (Rdot_comm u D) in CS2.
+    pose proof (norm_nonneg D). nra.
+Qed.
+
+(** * several tasks *)
+Fixpoint trans (p : nat) (M : list (list R)) : list (list R) :=
+  match p with
+  | O => []
+  | S p' => map (hd 0) M :: trans p' (map (@tl R) M)
+  end.
+
+Fixpoint fdot (A B : list (list R)) : R :=
+  match A, B with
+  | a :: A', b :: B' => Rdot a b + fdot A' B'
+  | _, _ => 0
+  end.
+
+Lemma trans_length p : forall M, length (trans p M) = p.
+Proof. induction p; intros M; simpl; auto. Qed.
+Lemma trans_rows p : forall M, Forall (fun r => length r = length M) (trans p M).
+Proof.
+  induction p as [|p IH]; intros M; simpl; constructor.
+  - apply map_length.
+  - specialize (IH (map (@tl R) M)). rewrite map_length in IH. exact IH.
+Qed.
+
+Lemma fdot_nil_rows : forall A B, Forall (fun a => a = []) A -> fdot A B = 0.
+Proof.
+  induction A as [|a A IH]; intros [|b B] H; simpl; auto.
+  inversion H; subst. simpl. rewrite IH by auto. lra.
+Qed.
+
+Lemma fdot_hd_tl : forall A B, length A = length B ->
+  (forall a, In a A -> a <> []) -> (forall b, In b B -> b <> []) ->
+  fdot A B = Rdot (map (hd 0) A) (map (hd 0) B) + fdot (map (@tl R) A) (map (@tl R) B).
+Proof.
+  induction A as [|a A IH]; intros [|b B] L HA HB; simpl in *; try discriminate; try lra.
+  rewrite IH by (auto; lia).
+  destruct a as [|x a]; [exfalso; apply (HA [] (or_introl eq_refl)); reflexivity|].
+  destruct b as [|y b]; [exfalso; apply (HB [] (or_introl eq_refl)); reflexivity|].
+  simpl. lra.
+Qed.
+
+Lemma fdot_trans p : forall A B, length A = length B ->
+  Forall (fun a => length a = p) A -> Forall (fun b => length b = p) B ->
+  fdot A B = fdot (trans p A) (trans p B).
+Proof.
+  induction p as [|p IH]; intros A B L HA HB.
+  - simpl. apply fdot_nil_rows. eapply Forall_impl; [|exact HA]. intros a Ha. now destruct a.
+  - simpl. rewrite <- IH.
+    + apply fdot_hd_tl; auto.
+      * intros a Ha E. rewrite Forall_forall in HA. specialize (HA a Ha). subst a. discriminate.
+      * intros b Hb E. rewrite Forall_forall in HB. specialize (HB b Hb). subst b. discriminate.
+    + now rewrite !map_length.
+    + apply Forall_map. eapply Forall_impl; [|exact HA]. intros a Ha. destruct a; simpl in *; [discriminate|lia].
+    + apply Forall_map. eapply Forall_impl; [|exact HB]. intros a Ha. destruct a; simpl in *; [discriminate|lia].
+Qed.
+
+Fixpoint map2l (f : list R -> list R -> list R) (A B : list (list R)) : list (list R) :=
+  match A, B with
+  | a :: A', b :: B' => f a b :: map2l f A' B'
+  | _, _ => []
+  end.
+
+Lemma hd_vsub a b : a <> [] -> b <> [] -> hd 0 (vsub a b) = hd 0 a - hd 0 b.
+Proof. destruct a, b; intros; try congruence. unfold vsub, vadd, vscale. simpl. lra. Qed.
+Lemma tl_vsub a b : tl (vsub a b) = vsub (tl a) (tl b).
+Proof. destruct a, b; unfold vsub, vadd, vscale; simpl; auto. destruct a; reflexivity. Qed.
+
+Lemma hd_map2l_vsub A : forall B, length A = length B ->
+  Forall (fun a => a <> []) A -> Forall (fun b => b <> []) B ->
+  map (hd 0) (map2l vsub A B) = vsub (map (hd 0) A) (map (hd 0) B).
+Proof.
+  induction A as [|a A IH]; intros [|b B] L HA HB; simpl in *; try discriminate; auto.
+  inversion HA; inversion HB; subst.
+  rewrite IH by (auto; lia). rewrite hd_vsub by auto.
+  unfold vsub, vadd, vscale. simpl. f_equal. lra.
+Qed.
+
+Lemma trans_vsub p : forall A B, length A = length B ->
+  Forall (fun a => length a = p) A -> Forall (fun b => length b = p) B ->
+  trans p (map2l vsub A B) = map2l vsub (trans p A) (trans p B).
+Proof.
+  induction p as [|p IH]; intros A B L HA HB; simpl; auto.
+  f_equal.
+  - apply hd_map2l_vsub; auto.
+    + eapply Forall_impl; [|exact HA]. intros a Ha E. subst a. discriminate.
+    + eapply Forall_impl; [|exact HB]. intros a Ha E. subst a. discriminate.
+  - assert (E : map (@tl R) (map2l vsub A B) = map2l vsub (map (@tl R) A) (map (@tl R) B)).
+    { clear. revert B. induction A as [|a A IHA]; intros [|b B]; simpl; auto. now rewrite tl_vsub, IHA. }
+    rewrite E. apply IH.
+    + now rewrite !map_length.
+    + apply Forall_map. eapply Forall_impl; [|exact HA]. intros a Ha. destruct a; simpl in *; [discriminate|lia].
+    + apply Forall_map. eapply Forall_impl; [|exact HB]. intros a Ha. destruct a; simpl in *; [discriminate|lia].
+Qed.
+
+(** per-task quadratic part *)
+Lemma quad_task cols y th th' : Forall (fun c => length c = length y) cols ->
+  length th = length cols -> length th' = length cols ->
+  / 2 * sq (residual cols y th')
+  >= / 2 * sq (residual cols y th) - Rdot (vsub th' th) (map (fun c => Rdot c (residual cols y th)) cols).
+Proof.
+  intros H L L'. rewrite (residual_shift cols y th th' H L L').
+  apply quad_lower_bound; auto.
+  unfold residual. rewrite vsub_length; auto. now rewrite lin_length.
+Qed.
+
+Fixpoint quad_tasks (cols : list (list R)) (Ys Ws : list (list R)) : R :=
+  match Ys, Ws with
+  | y :: Ys', w :: Ws' => / 2 * sq (residual cols y w) + quad_tasks cols Ys' Ws'
+  | _, _ => 0
+  end.
+Fixpoint corr_tasks (cols : list (list R)) (Ys Ws : list (list R)) : list (list R) :=
+  match Ys, Ws with
+  | y :: Ys', w :: Ws' => map (fun c => Rdot c (residual cols y w)) cols :: corr_tasks cols Ys' Ws'
+  | _, _ => []
+  end.
+Fixpoint gpen (l1 l2 : R) (rows : list (list R)) : R :=
+  match rows with
+  | r :: rs => gpen1 l1 l2 r + gpen l1 l2 rs
+  | [] => 0
+  end.
+
+(** the multi-task objective (times n): sum over tasks of 1/2 |y_k - X w_k|^2 + l1 sum_j |W_j| + l2/2 |W|_F^2;
+    [Ws] lists the coefficient vector of every task, the rows W_j are its transpose *)
+Definition mobjective (cols Ys : list (list R)) (l1 l2 : R) (Ws : list (list R)) : R :=
+  quad_tasks cols Ys Ws + gpen l1 l2 (trans (length cols) Ws).
+
+Fixpoint group_all (Cs rows : list (list R)) (l1 l2 : R) (eps : list R) : Prop :=
+  match Cs, rows, eps with
+  | C :: Cs', r :: rows', e :: eps' =>
+      0 <= e /\ length C = length r /\ group_cond C l1 l2 r e /\ group_all Cs' rows' l1 l2 eps'
+  | [], [], [] => True
+  | _, _, _ => False
+  end.
+
+Definition rowdist (rows' rows : list (list R)) : list R :=
+  map (fun p => norm (vsub (fst p) (snd p))) (combine rows' rows).
+
+Lemma quad_tasks_lower cols : forall Ys Ws Ws',
+  Forall (fun y => Forall (fun c => length c = length y) cols) Ys ->
+  length Ws = length Ys -> length Ws' = length Ys ->
+  Forall (fun w => length w = length cols) Ws -> Forall (fun w => length w = length cols) Ws' ->
+  quad_tasks cols Ys Ws' >= quad_tasks cols Ys Ws - fdot (map2l vsub Ws' Ws) (corr_tasks cols Ys Ws).
+Proof.
+  induction Ys as [|y Ys IH]; intros [|w Ws] [|w' Ws'] H L L' HW HW'; simpl in *; try discriminate; try lra.
+  inversion H; inversion HW; inversion HW'; subst.
+  specialize (IH Ws Ws' ltac:(auto) ltac:(lia) ltac:(lia) ltac:(auto) ltac:(auto)).
+  pose proof (quad_task cols y w w' ltac:(auto) ltac:(auto) ltac:(auto)). lra.
+Qed.
+
+Lemma gpen_lower l1 l2 : 0 <= l1 -> 0 <= l2 -> forall Cs rows eps rows',
+  group_all Cs rows l1 l2 eps -> length rows' = length rows ->
+  Forall2 (fun r' r => length r' = length r) rows' rows ->
+  gpen l1 l2 rows' - gpen l1 l2 rows - fdot (map2l vsub rows' rows) Cs >= - Rdot eps (rowdist rows' rows).
+Proof.
+  intros H1 H2. induction Cs as [|C Cs IH]; intros [|r rows] [|e eps] rows' K L F; simpl in K; try contradiction.
+  - destruct rows'; try discriminate. simpl. lra.
+  - destruct rows' as [|r' rows']; try discriminate. simpl in L.
+    destruct K as (He & LC & Hc & K). inversion F; subst.
+    specialize (IH rows eps rows' K ltac:(lia) ltac:(auto)).
+    pose proof (group_ineq C l1 l2 r e r' H1 H2 LC ltac:(auto) Hc) as G.
+    unfold rowdist in *. simpl. lra.
+Qed.
+
+Lemma corr_tasks_shape cols : forall Ys Ws, length Ws = length Ys ->
+  length (corr_tasks cols Ys Ws) = length Ys /\ Forall (fun c => length c = length cols) (corr_tasks cols Ys Ws).
+Proof.
+  induction Ys as [|y Ys IH]; intros [|w Ws] L; simpl in *; try discriminate; auto.
+  destruct (IH Ws ltac:(lia)) as [A B]. split; [lia|]. constructor; auto. apply map_length.
+Qed.
+
+Lemma map2l_vsub_shape p : forall A B, length A = length B ->
+  Forall (fun a => length a = p) A -> Forall (fun b => length b = p) B ->
+  length (map2l vsub A B) = length A /\ Forall (fun c => length c = p) (map2l vsub A B).
+Proof.
+  induction A as [|a A IH]; intros [|b B] L HA HB; simpl in *; try discriminate; auto.
+  inversion HA; inversion HB; subst. destruct (IH B ltac:(lia) ltac:(auto) ltac:(auto)) as [X Y].
+  split; [lia|]. constructor; auto. rewrite vsub_length; lia.
+Qed.
+
+Lemma Forall2_rows p : forall A B, length A = length B ->
+  Forall2 (fun r' r : list R => length r' = length r) (trans p A) (trans p B).
+Proof.
+  induction p as [|p IH]; intros A B L; simpl; constructor.
+  - now rewrite !map_length.
+  - apply IH. now rewrite !map_length.
+Qed.
+
+(** first-order conditions of every row up to eps_j imply eps-optimality against every other coefficient matrix *)
+Theorem group_kkt_eps_optimal : forall (cols Ys Ws Ws' : list (list R)) (l1 l2 : R) (eps : list R),
+  Forall (fun y => Forall (fun c => length c = length y) cols) Ys ->
+  length Ws = length Ys -> length Ws' = length Ys ->
+  Forall (fun w => length w = length cols) Ws -> Forall (fun w => length w = length cols) Ws' ->
+  0 <= l1 -> 0 <= l2 ->
+  group_all (trans (length cols) (corr_tasks cols Ys Ws)) (trans (length cols) Ws) l1 l2 eps ->
+  mobjective cols Ys l1 l2 Ws'
+  >= mobjective cols Ys l1 l2 Ws - Rdot eps (rowdist (trans (length cols) Ws') (trans (length cols) Ws)).
+Proof.
+  intros cols Ys Ws Ws' l1 l2 eps H L L' HW HW' H1 H2 K.
+  unfold mobjective. set (p := length cols) in *.
+  pose proof (quad_tasks_lower cols Ys Ws Ws' H L L' HW HW') as Q.
+  destruct (corr_tasks_shape cols Ys Ws L) as [LC FC]. fold p in FC.
+  destruct (map2l_vsub_shape p Ws' Ws ltac:(lia) HW' HW) as [LD FD].
+  rewrite (fdot_trans p (map2l vsub Ws' Ws) (corr_tasks cols Ys Ws) ltac:(lia) FD FC) in Q.
+  rewrite (trans_vsub p Ws' Ws ltac:(lia) HW' HW) in Q.
+  pose proof (gpen_lower l1 l2 H1 H2 _ _ _ (trans p Ws') K
+                ltac:(rewrite !trans_length; reflexivity) (Forall2_rows p Ws' Ws ltac:(lia))) as G.
+  lra.
+Qed.
